@@ -625,6 +625,89 @@ fn c13_position(rep: &Reporter, p: &Pos, strings: &[String], calls: &AtomicU64, 
     calls.fetch_add(n, Ordering::Relaxed);
 }
 
+/// whole move lists through `make_all_uci` in which tokens REPEAT (shuffles: the same text denotes
+/// moves of different positions, with different clocks), lengths 5 .. 41: the final position must be
+/// the reference's, field by field; with an impossible token appended the board must be untouched
+pub fn long_list_check(rep: &Reporter, p: &Pos, n: &AtomicU64) {
+    let fen = p.to_fen();
+    // a four-ply cycle of reversible moves, if the position has one
+    let mut cycle: Option<[Mv; 4]> = None;
+    'outer: for a in p.legal() {
+        if a.is_capture() || a.piece == PAWN || a.is_castle {
+            continue;
+        }
+        let p1 = p.make(&a);
+        for b in p1.legal() {
+            if b.is_capture() || b.piece == PAWN || b.is_castle {
+                continue;
+            }
+            let p2 = p1.make(&b);
+            let back_a = format!("{}{}", sq_name(a.to), sq_name(a.from));
+            if let Some(a2) = p2.find_legal_uci(&back_a) {
+                let p3 = p2.make(&a2);
+                let back_b = format!("{}{}", sq_name(b.to), sq_name(b.from));
+                if let Some(b2) = p3.find_legal_uci(&back_b) {
+                    if p3.make(&b2).board == p.board {
+                        cycle = Some([a, b, a2, b2]);
+                        break 'outer;
+                    }
+                }
+            }
+        }
+    }
+    let cyc = match cycle {
+        Some(c) => c,
+        None => return,
+    };
+    for len in [5usize, 6, 9, 16, 41] {
+        let mut q = p.clone();
+        let mut list: Vec<String> = Vec::new();
+        for i in 0..len {
+            let want = cyc[i % 4].uci();
+            match q.find_legal_uci(&want) {
+                Some(m) => {
+                    q = q.make(&m);
+                    list.push(want);
+                }
+                None => break,
+            }
+        }
+        if list.len() != len {
+            continue;
+        }
+        for bad_tail in [false, true] {
+            n.fetch_add(1, Ordering::Relaxed);
+            let mut b = match board_from_pos(p) {
+                Ok(b) => b,
+                Err(_) => return,
+            };
+            let before = snap(&b);
+            let mut l = list.clone();
+            if bad_tail {
+                l.push(list[0].clone() + "q");
+            }
+            let case = |extra: Value| json!({"kind": "long_move_list", "fen": fen, "list": l, "detail": extra});
+            match guarded(|| b.make_all_uci(&l)) {
+                Err(m) => rep.report(format!("panic:make_all_uci:{}", short(&m)), case(json!({"panic": m}))),
+                Ok(r) => {
+                    let after = snap(&b);
+                    if bad_tail {
+                        if r.is_ok() {
+                            rep.report("make_all_uci:accepts_list_with_bad_move".to_string(), case(json!({})));
+                        } else if after != before {
+                            rep.report("make_all_uci:not_all_or_nothing".to_string(), case(json!({"diff": before.diff(&after)})));
+                        }
+                    } else if r.is_err() {
+                        rep.report("make_all_uci:rejects_legal_list".to_string(), case(json!({"error": format!("{:?}", r.err())})));
+                    } else if after.to_pos() != q {
+                        rep.report("make_all_uci:wrong_final_position:repeated_tokens".to_string(), case(json!({"expected": q.to_fen(), "actual": after.to_pos().to_fen()})));
+                    }
+                }
+            }
+        }
+    }
+}
+
 /// `Move::to_pgn_string(board)` with Move VALUES that were generated on other boards: the successors
 /// of `p` (the opponent's moves), the colour-flipped twin, the same placement at another clock.
 /// The outcome must be the one `uci_to_pgn` gives for the move's text — the SAN if that text is a
@@ -865,6 +948,7 @@ pub fn run_c13(tier: Tier) -> i32 {
         if i % 2 == 0 || tier == Tier::Thorough {
             c13_foreign_moves(&rep, p, &foreign_calls);
         }
+        long_list_check(&rep, p, &lists_run);
     });
     // the position command of the engine is a caller of make_all_uci: a rejected move list after an
     // accepted position must leave the engine on the accepted one (all-or-nothing, observed through
@@ -915,6 +999,10 @@ pub fn replay_c13(case: &Value) -> i32 {
         "move_list" => {
             let n = AtomicU64::new(0);
             c13_lists(&rep, &p, &n);
+        }
+        "long_move_list" => {
+            let n = AtomicU64::new(0);
+            long_list_check(&rep, &p, &n);
         }
         "foreign_move" => {
             // the whole (small) family of this position is re-run; the case names the first failure
